@@ -30,6 +30,26 @@ type P struct {
 	control.Paragraph
 }
 
+// PT is P seen through typed members as well: a decoded element must show, in its members, the values of its own
+// paragraph and nothing else.
+type PT struct {
+	control.Paragraph
+	A    string `control:"A"`
+	Bc   string `control:"B-c"`
+	X    string `control:"X"`
+	Long string `control:"Long-Name9"`
+}
+
+// typedView reports the first member of x that differs from the paragraph x itself carries.
+func (x PT) typedView(i int) error {
+	for _, m := range []struct{ key, got string }{{"A", x.A}, {"B-c", x.Bc}, {"X", x.X}, {"Long-Name9", x.Long}} {
+		if want := x.Values[m.key]; m.got != want {
+			return fmt.Errorf("element %d: member %s is %q but its paragraph has %q", i, m.key, m.got, want)
+		}
+	}
+	return nil
+}
+
 func canonParas(ps []control.Paragraph) string {
 	var ref []gen.RefPara
 	for _, p := range ps {
@@ -94,6 +114,42 @@ func readPaths(text string, delivery int) map[string]string {
 			ps = append(ps, x.Paragraph)
 		}
 		return canonParas(ps), nil
+	})
+	guard("unmarshal-typed-slice", func() (string, error) {
+		var l []PT
+		if err := control.Unmarshal(&l, rd()); err != nil {
+			return "", err
+		}
+		var ps []control.Paragraph
+		for i, x := range l {
+			if err := x.typedView(i); err != nil {
+				return "", err
+			}
+			ps = append(ps, x.Paragraph)
+		}
+		return canonParas(ps), nil
+	})
+	guard("decoder-typed-loop", func() (string, error) {
+		dec, err := control.NewDecoder(rd(), nil)
+		if err != nil {
+			return "", err
+		}
+		var ps []control.Paragraph
+		for i := 0; i < 1000; i++ {
+			var x PT // a fresh value per paragraph: like encoding/json, Decode leaves members alone whose field is absent
+			err := dec.Decode(&x)
+			if err == io.EOF {
+				return canonParas(ps), nil
+			}
+			if err != nil {
+				return "", err
+			}
+			if err := x.typedView(i); err != nil {
+				return "", err
+			}
+			ps = append(ps, x.Paragraph)
+		}
+		return "", fmt.Errorf("no end of input after 1000 paragraphs")
 	})
 	guard("decoder-loop", func() (string, error) {
 		dec, err := control.NewDecoder(rd(), nil)
@@ -281,6 +337,10 @@ func exploreDoc(scen string, d gen.DDoc, k int, st *mc.Stats) {
 		}
 		nl := len(d.PhysicalLines(opt))
 		opt.CommentAt = dev(nl+2, "comment-at")
+		if opt.CommentAt > 0 {
+			opt.CommentText = x.Choose(len(gen.D822Comments), "comment-text") // part of the same deviation: every comment shape
+			devs = append(devs, fmt.Sprintf("comment-text=%d", opt.CommentText))
+		}
 		text := d.Render(opt)
 		del := gen.DeliveryForChoice(dev(gen.DeliveryModes(len(text)), "delivery"))
 		in := In{text, expected, del, devs}
